@@ -476,12 +476,13 @@ class World:
             return fun
         return bind if func is None else bind(func)
 
-    def reevaluate(self, api_url, alert_f, state, zkclient, last_waited):
-        """Harness-side wrapper of the real reevaluate."""
+    def reevaluate(self, api_url, alert_f, state, *args, **kwargs):
+        """Harness-side wrapper of the real reevaluate (further arguments
+        are passed through as they come)."""
         ev = self.begin_eval(state)
         try:
-            result = self.real_reevaluate(api_url, alert_f, state, zkclient,
-                                          last_waited)
+            result = self.real_reevaluate(api_url, alert_f, state, *args,
+                                          **kwargs)
         except Exception as err:   # pylint: disable=broad-except
             if isinstance(err, HarnessError):
                 raise
